@@ -27,3 +27,26 @@ func (r *remoteKeySet) Bad_E6Rlockset_afterunlock() int {
 	}
 	return n
 }
+
+// "must be called with the lock held" helpers: fine when every call site holds the lock ...
+func (r *remoteKeySet) Good_E6Rlockset_helper_locked() {
+	r.cachedKeys = nil
+}
+
+func (r *remoteKeySet) e6lCallerLocked() {
+	r.mu.Lock()
+	defer r.mu.Unlock()
+	r.Good_E6Rlockset_helper_locked()
+}
+
+// ... and reported when one call site does not
+func (r *remoteKeySet) Bad_E6Rlockset_helper_onecallerunlocked() {
+	r.cachedKeys = nil
+}
+
+func (r *remoteKeySet) e6lCallerLocked2() {
+	r.mu.Lock()
+	r.Bad_E6Rlockset_helper_onecallerunlocked()
+	r.mu.Unlock()
+	r.Bad_E6Rlockset_helper_onecallerunlocked()
+}
